@@ -356,6 +356,11 @@ func (agent *DCPAgent) Close() error {
 			vb.stream.open = false
 		}
 	}
+	// gocbcore closes the connection and then waits for the DCP goroutine to finish the packet it is
+	// processing (memdclient: close(dcpBufferQ); <-dcpProcDoneCh) before the client is released
+	if vrt.Active() {
+		vrt.Block("dcp agent close: wait for the DCP thread", func() bool { return agent.ag.delivering == 0 })
+	}
 	return nil
 }
 
